@@ -3,4 +3,12 @@ HOOK_COMMITS = []
 NOTES = ("All checks are property-based tests / fuzzers (rapid v1.3.0 + native go fuzzing). Genuine defects found on the pinned tree are "
          "either repaired by 'fix:' commits in /repo or listed in /verif/known_findings.txt; see DESIGN.md.")
 NOT_APPLICABLE = {}
-CLAIMED = {}
+CLAIMED = {
+    "C01": dict(
+        technique="model-based (state-machine) property testing with rapid; differential oracle = raw Go os package on a fresh tmpfs directory; shrinking to a minimal history",
+        text=("Generated operation histories are applied to mem.FS, to keyvalue.FS over a plain map store and to os.FS, and step by step to the raw os package; "
+              "success, returned data, the whole tree, Stat over the depth-3 path closure and Chtimes-set mtimes are compared after every step. "
+              "Sampled exploration (hundreds of histories in quick, ~18k in thorough), not proof: it finds divergences reachable by short histories over a 3-name alphabet."),
+        note="trusts the Go os package on Linux tmpfs as the oracle; euid 0 so permission enforcement never triggers; known finding C01:readfile-directory is excluded by construction while its probe reproduces",
+    ),
+}
